@@ -100,10 +100,19 @@ def check_export(params):
             "edges, order of inputs/outputs or scalar)")
         return out
     # import it back
+    snapshot = (list(g.inputs), list(g.outputs), sorted(g.vertices()), sorted(map(tuple, map(sorted, g.edges()))))
     try:
         back = Diagram.from_pyzx(g)
     except Exception as e:  # noqa
         bad("from_pyzx-raises", "from_pyzx(to_pyzx(d)) raised %s: %s" % (type(e).__name__, str(e)[:120]))
+        return out
+    after = (list(g.inputs), list(g.outputs), sorted(g.vertices()), sorted(map(tuple, map(sorted, g.edges()))))
+    if after != snapshot:
+        bad("graph-mutated", "from_pyzx changed the graph it was given: inputs/outputs %s -> %s" % (snapshot[:2], after[:2]))
+        return out
+    again = Diagram.from_pyzx(g)
+    if ref.diagram_key(again) != ref.diagram_key(back):
+        bad("import-history", "a second from_pyzx of the same graph gives %s, the first gave %s" % (again, back))
         return out
     errs = ref.scan(back)
     if errs:
@@ -156,10 +165,19 @@ def check_import(params):
     except Exception:
         params["_pyzx_cannot"] = True
         return out
+    snapshot = (list(g.inputs), list(g.outputs), sorted(g.vertices()), sorted(map(tuple, map(sorted, g.edges()))))
     try:
         d = Diagram.from_pyzx(g)
     except Exception as e:  # noqa
         bad("from_pyzx-raises", "%s: %s" % (type(e).__name__, str(e)[:120]))
+        return out
+    after = (list(g.inputs), list(g.outputs), sorted(g.vertices()), sorted(map(tuple, map(sorted, g.edges()))))
+    if after != snapshot:
+        bad("graph-mutated", "from_pyzx changed its argument: inputs/outputs/vertices/edges %s -> %s" % (snapshot[:2], after[:2]))
+        return out
+    d2 = Diagram.from_pyzx(g)
+    if ref.diagram_key(d2) != ref.diagram_key(d):
+        bad("import-history", "a second from_pyzx of the same graph gives a different diagram: %s then %s" % (d, d2))
         return out
     errs = ref.scan(d)
     if errs:
